@@ -25,7 +25,13 @@ import vlib
 
 BINS = ["drive_xfer"]
 
-SERVER_ACTIONS = ("Refuse", "Decline", "SendCurrentSoa", "SendWhole", "SendOpen", "SendMore", "SendClose")
+SERVER_ACTIONS = ("Refuse", "Decline", "SendCurrentSoa", "SendWhole", "SendOpen", "SendMore", "SendClose", "SendCutOff")
+# the model weakened the way the implementation was found to be weaker: each has to violate its requirement
+AS_IS = [("MC_Xfer_AsIs_AnySoaCloses", "X02_ClientVerdict", "any SOA at the end of a message closes the transfer (serial not compared)"),
+         ("MC_Xfer_AsIs_PlainEndIsSilent", "X02_ClientVerdict", "a plain end of the stream below ends the transfer stream without an error"),
+         ("MC_Xfer_AsIs_RcodeIgnored", "X02_ClientVerdict", "an error RCODE neither ends the transfer nor is reported"),
+         ("MC_Xfer_AsIs_NonSoaStartEnds", "X02_ClientVerdict", "an answer that does not start with an SOA ends the stream normally"),
+         ("MC_Xfer_AsIs_SingleMessage", "X02_ServerAnswerConforms", "the whole answer is one message; what does not fit is cut off")]
 GEN_CFG = ["SPECIFICATION Spec", "CONSTANTS", '  Family = "{family}"', '  Level = "{level}"', "INVARIANT Emit", "CHECK_DEADLOCK FALSE"]
 
 # what a cut-off message explains
@@ -122,12 +128,20 @@ def run(res, tier, seed):
     wd = vlib.workdir("x02")
     spec = vlib.SPEC
     # ---- D
-    mcs = [("MC_Xfer", ("ScriptEmit",)), ("MC_Xfer_script", SERVER_ACTIONS), ("MC_Xfer_live", ())]
+    mcs = [("MC_Xfer", ("ScriptEmit", "SendCutOff")), ("MC_Xfer_script", SERVER_ACTIONS), ("MC_Xfer_live", ("SendCutOff",))]
     if tier == "thorough":
         mcs.append(("MC_Xfer_script4", SERVER_ACTIONS))
     for cfg, zero in mcs:
         st = vlib.mc(os.path.join(spec, "MC_Xfer.tla"), os.path.join(spec, cfg + ".cfg"), wd, workers=6, allow_zero=zero, timeout=1500)
         res.add_mc(cfg, st)
+    asis = {}
+    for cfg, inv, what in AS_IS:
+        rc, out = vlib.tlc(os.path.join(spec, "MC_Xfer.tla"), os.path.join(spec, cfg + ".cfg"), wd, workers=2, timeout=600)
+        if f"Invariant {inv} is violated" not in out:
+            vlib.log(out[-3000:])
+            raise vlib.ToolError(f"{cfg}: the as-is rule is expected to violate {inv} and did not")
+        asis[cfg] = {"what": what, "result": f"{inv} violated (expected counterexample)"}
+    res.extra["as_is_counterexamples"] = asis
     # ---- R
     cases = []
     for family, pfx in (("server", "s"), ("client", "c"), ("request", "q")):
